@@ -162,6 +162,51 @@ def _session_outer(fn: ast.AsyncFunctionDef):
     return it.args[0].value, _ladder(rt, True), _ladder(final, False)
 
 
+# ---- inventory: nothing that could be a ladder may exist outside the modelled ones -----------------------
+
+REQUESTER_METHODS = {
+    "AiohttpRequester": {"__init__", "async_http_request"},
+    "AiohttpSessionRequester": {"__init__", "async_http_request", "_async_http_request"},
+}
+MODULE_FUNCTIONS = {"_fixed_host_header", "_request_headers"}       # header helpers (hand-modelled)
+OTHER_CLASSES = {"AiohttpNotifyServer"}                              # not a requester (C09/C10 territory)
+
+
+def _is_requester(cls: ast.ClassDef) -> bool:
+    bases = {ast.unparse(b).split(".")[-1] for b in cls.bases}
+    return "UpnpRequester" in bases or cls.name.endswith("Requester")
+
+
+def _inventory(mod: ast.Module, modelled: List[ast.Try]) -> None:
+    """fail loudly when aiohttp.py grows a requester class, a requester method, a module-level function
+    or an `except` clause that the four extracted ladders do not cover"""
+    covered = {id(h) for t in modelled for h in t.handlers}
+    for n in mod.body:
+        if isinstance(n, ast.ClassDef):
+            if _is_requester(n):
+                if n.name not in REQUESTER_METHODS:
+                    raise Untranslatable(f"new requester class {n.name} (line {n.lineno}) is not modelled")
+                meths = {f.name for f in n.body if isinstance(f, (ast.FunctionDef, ast.AsyncFunctionDef))}
+                extra = meths - REQUESTER_METHODS[n.name]
+                if extra:
+                    raise Untranslatable(f"{n.name} has unmodelled method(s) {sorted(extra)}")
+                for h in ast.walk(n):
+                    if isinstance(h, ast.ExceptHandler) and id(h) not in covered:
+                        raise Untranslatable(f"{n.name}: `except` clause at line {h.lineno} belongs to no modelled ladder")
+                    if isinstance(h, ast.Try) and h not in modelled:
+                        raise Untranslatable(f"{n.name}: try statement at line {h.lineno} is not a modelled ladder")
+            elif n.name not in OTHER_CLASSES:
+                raise Untranslatable(f"new class {n.name} (line {n.lineno}) in {SRC}: decide whether it is a requester")
+        elif isinstance(n, (ast.FunctionDef, ast.AsyncFunctionDef)):
+            if n.name not in MODULE_FUNCTIONS:
+                raise Untranslatable(f"new module-level function {n.name} (line {n.lineno}) in {SRC}")
+            for h in ast.walk(n):
+                if isinstance(h, (ast.Try, ast.ExceptHandler)):
+                    raise Untranslatable(f"{n.name}: try/except at line {h.lineno} in a header helper")
+    for cname in REQUESTER_METHODS:
+        _find_class(mod, cname)
+
+
 def _load_exceptions(repo: Path):
     spec = importlib.util.spec_from_file_location("_c17_exceptions_probe", repo / EXC)
     mod = importlib.util.module_from_spec(spec)
@@ -201,7 +246,10 @@ def gen(repo: Path) -> str:
     _covers_exchange(inner_t, "self._session")
     plain = _ladder(plain_t, False)
     inner = _ladder(inner_t, False)
-    retries, retry, final = _session_outer(_find_method(sess, "async_http_request"))
+    outer = _find_method(sess, "async_http_request")
+    retries, retry, final = _session_outer(outer)
+    outer_body = [st for st in outer.body if not (isinstance(st, ast.Expr) and isinstance(st.value, ast.Constant))]
+    _inventory(mod, [plain_t, inner_t, outer_body[0].body[0], outer_body[1]])
 
     excmod = _load_exceptions(repo)
     excsrc = extract.parse(repo, EXC)
